@@ -58,6 +58,9 @@ type Exec struct {
 	funcsSeen  map[string]bool
 	lemmaErrors []string
 	pure        int
+	heapViews   map[string]*heapViewInfo
+	sumFields   map[string][]string
+	pureEval    int
 	tagIds      map[string]int
 	arrTypes    map[string]types.Type
 }
@@ -89,7 +92,7 @@ func (x *Exec) declare(st *State, prefix string, sortS string) string {
 }
 
 func (x *Exec) define(st *State, prefix, sortS, term string) string {
-	if x.pure > 0 || (len(term) < 24 && !strings.Contains(term, "(")) {
+	if x.pure > 0 || x.pureEval > 0 || (len(term) < 24 && !strings.Contains(term, "(")) {
 		return term
 	}
 	n := x.fresh(prefix)
@@ -543,6 +546,9 @@ func (x *Exec) store(st *State, fr *Frame, p *Place, v Val, in ssa.Instruction) 
 // ---------- obligations ----------
 
 func (x *Exec) oblige(st *State, fr *Frame, kind, tag string, in interface{}, idx int, goal, desc string) {
+	if x.pureEval > 0 {
+		return // evaluating a side-effect free function as a term: obligations are generated elsewhere
+	}
 	if goal == "true" {
 		// still record trivially-true obligations? no: keep counts honest, record as discharged-by-construction
 		return
